@@ -140,6 +140,18 @@ LogicCases ==
                     expect |-> LogicRel(p, o, v[1], v[2]),
                     ops |-> P2w(v[1], v[2], [op |-> "logic", a |-> "x", b |-> "y", pairs |-> p, xor |-> o, out |-> "o"])])))))
 
+\* operand handles for the bitwise components: one handle for both operands, constant
+\* witnesses (0 = ZERO, 1 = ONE) as operands
+HandleLogicCases ==
+  Flat(Map(IF Quick THEN <<1, 8, 64, 127>> ELSE <<1, 2, 8, 32, 64, 96, 126, 127>>, LAMBDA p :
+    Flat(Map(<<TRUE, FALSE>>, LAMBDA o : Flat(Map(<< Rnd(p + 40), M1 >>, LAMBDA x :
+      << [g |-> "logic/same-handle", n |-> p, xor |-> o, expect |-> LogicRel(p, o, x, x),
+          ops |-> << Wt(x, "x"), [op |-> "logic", a |-> "x", b |-> "x", pairs |-> p, xor |-> o, out |-> "o"] >>],
+         [g |-> "logic/const-b-0", n |-> p, xor |-> o, expect |-> LogicRel(p, o, x, Zero),
+          ops |-> << Wt(x, "x"), [op |-> "logic", a |-> "x", b |-> 0, pairs |-> p, xor |-> o, out |-> "o"] >>],
+         [g |-> "logic/const-a-1", n |-> p, xor |-> o, expect |-> LogicRel(p, o, One, x),
+          ops |-> << Wt(x, "x"), [op |-> "logic", a |-> 1, b |-> "x", pairs |-> p, xor |-> o, out |-> "o"] >>] >>))))))
+
 Bits4 == << Zero, One, BInt(2), M1 >>
 Vals3 == << Zero, BInt(5), M1, Rnd(9) >>
 ArithCases ==
@@ -174,6 +186,37 @@ ArithCases ==
                                                 q |-> [m |-> q[1], l |-> q[2], r |-> q[3], o |-> q[4], f |-> q[5], c |-> q[6]]]
                                     ELSE [op |-> "evaluated_output", w |-> <<"x", "y", 0, "z">>, out |-> "e",
                                           q |-> [m |-> q[1], l |-> q[2], r |-> q[3], o |-> q[4], f |-> q[5], c |-> q[6]]])])))))
+
+\* operand handles for the arithmetic family
+HandleArithCases ==
+     Flat(Map(Vals3, LAMBDA x :
+        << [g |-> "select/const-bit-1", expect |-> SelectRel(One, x, Rnd(8)),
+            ops |-> << Wt(x, "x"), Wt(Rnd(8), "y"), [op |-> "select", bit |-> 1, a |-> "x", b |-> "y", out |-> "s"] >>],
+           [g |-> "select/const-bit-0", expect |-> SelectRel(Zero, x, Rnd(8)),
+            ops |-> << Wt(x, "x"), Wt(Rnd(8), "y"), [op |-> "select", bit |-> 0, a |-> "x", b |-> "y", out |-> "s"] >>],
+           [g |-> "select/same-handle", expect |-> SelectRel(One, x, x),
+            ops |-> << Wt(One, "b"), Wt(x, "x"), [op |-> "select", bit |-> "b", a |-> "x", b |-> "x", out |-> "s"] >>],
+           [g |-> "select/all-one-handle", expect |-> IF x = Zero \/ x = One THEN SelectRel(x, x, x) ELSE Unsat,
+            ops |-> << Wt(x, "x"), [op |-> "select", bit |-> "x", a |-> "x", b |-> "x", out |-> "s"] >>],
+           [g |-> "select_one/const-bit-0", expect |-> SelectOneRel(Zero, x),
+            ops |-> << Wt(x, "x"), [op |-> "select_one", bit |-> 0, a |-> "x", out |-> "s"] >>],
+           [g |-> "select_zero/const-bit-1", expect |-> SelectZeroRel(One, x),
+            ops |-> << Wt(x, "x"), [op |-> "select_zero", bit |-> 1, a |-> "x", out |-> "s"] >>],
+           [g |-> "assert_equal/same-handle", expect |-> Ok(<< >>),
+            ops |-> << Wt(x, "x"), [op |-> "assert_equal", a |-> "x", b |-> "x"] >>],
+           [g |-> "assert_equal/const-0", expect |-> IF x = Zero THEN Ok(<< >>) ELSE Unsat,
+            ops |-> << Wt(x, "x"), [op |-> "assert_equal", a |-> "x", b |-> 0] >>],
+           [g |-> "assert_equal/const-1", expect |-> IF x = One THEN Ok(<< >>) ELSE Unsat,
+            ops |-> << Wt(x, "x"), [op |-> "assert_equal", a |-> 1, b |-> "x"] >>],
+           [g |-> "gate_add/same-handle", expect |-> Ok(<< BAdd(BAdd(BMul(Rnd(2), x), BMul(Rnd(3), x)), BAdd(BMul(Rnd(5), x), Rnd(6))) >>),
+            ops |-> << Wt(x, "x"), [op |-> "gate_add", w |-> <<"x", "x", 0, "x">>, out |-> "s",
+                                    q |-> [l |-> Rnd(2), r |-> Rnd(3), f |-> Rnd(5), c |-> Rnd(6)]] >>],
+           [g |-> "gate_mul/same-handle", expect |-> Ok(<< BAdd(BMul(Rnd(1), BMul(x, x)), BAdd(BMul(Rnd(5), One), Rnd(6))) >>),
+            ops |-> << Wt(x, "x"), [op |-> "gate_mul", w |-> <<"x", "x", 0, 1>>, out |-> "s",
+                                    q |-> [m |-> Rnd(1), f |-> Rnd(5), c |-> Rnd(6)]] >>] >>))
+  \o << [g |-> "assert_equal/const-0-1", expect |-> Unsat, ops |-> << [op |-> "assert_equal", a |-> 0, b |-> 1] >>],
+        [g |-> "boolean/const-1", expect |-> Ok(<< >>), ops |-> << [op |-> "boolean", a |-> 1] >>],
+        [g |-> "boolean/const-0", expect |-> Ok(<< >>), ops |-> << [op |-> "boolean", a |-> 0] >>] >>
 
 \* ---- curve ----------------------------------------------------------------
 Id == C!PtId
@@ -215,6 +258,53 @@ CurveCases ==
         [g |-> "select_point", expect |-> Ok(IF b = One THEN pq[1] ELSE pq[2]),
          ops |-> << Wt(b, "b"), PtOp(pq[1], "P"), PtOp(pq[2], "Q"),
                     [op |-> "select_point", bit |-> "b", a |-> "P", b |-> "Q", out |-> "R"] >>])))
+
+\* ---- operand handles: the constant witnesses (indices 0 = ZERO, 1 = ONE, hence the
+\* IDENTITY constant point <<0, 1>>) and one handle used for several operands.  The
+\* relation is the same as for freshly allocated operands of the same value.
+IdC == << 0, 1 >>
+HandleCurveCases ==
+     Flat(Map(<< JubJubG, Id, GMul(Rnd(25)) >>, LAMBDA p :
+        << [g |-> "add_point/const-b", expect |-> Ok(p),
+            ops |-> << PtOp(p, "P"), [op |-> "add_point", a |-> "P", b |-> IdC, out |-> "R"] >>],
+           [g |-> "add_point/const-a", expect |-> Ok(p),
+            ops |-> << PtOp(p, "P"), [op |-> "add_point", a |-> IdC, b |-> "P", out |-> "R"] >>],
+           [g |-> "sub_point/const-b", expect |-> Ok(p),
+            ops |-> << PtOp(p, "P"), [op |-> "sub_point", a |-> "P", b |-> IdC, out |-> "R"] >>],
+           [g |-> "sub_point/const-a", expect |-> Ok(C!PtNeg(p)),
+            ops |-> << PtOp(p, "P"), [op |-> "sub_point", a |-> IdC, b |-> "P", out |-> "R"] >>],
+           [g |-> "add_point/same-handle", expect |-> Ok(Dbl(p)),
+            ops |-> << PtOp(p, "P"), [op |-> "add_point", a |-> "P", b |-> "P", out |-> "R"] >>],
+           [g |-> "sub_point/same-handle", expect |-> Ok(Id),
+            ops |-> << PtOp(p, "P"), [op |-> "sub_point", a |-> "P", b |-> "P", out |-> "R"] >>],
+           [g |-> "select_point/same-handle", expect |-> Ok(p),
+            ops |-> << Wt(One, "b"), PtOp(p, "P"), [op |-> "select_point", bit |-> "b", a |-> "P", b |-> "P", out |-> "R"] >>],
+           [g |-> "select_point/const-bit-1", expect |-> Ok(p),
+            ops |-> << PtOp(p, "P"), PtOp(JubJubGNums, "Q"), [op |-> "select_point", bit |-> 1, a |-> "P", b |-> "Q", out |-> "R"] >>],
+           [g |-> "select_point/const-bit-0", expect |-> Ok(JubJubGNums),
+            ops |-> << PtOp(p, "P"), PtOp(JubJubGNums, "Q"), [op |-> "select_point", bit |-> 0, a |-> "P", b |-> "Q", out |-> "R"] >>],
+           [g |-> "select_identity/const-bit-1", expect |-> Ok(p),
+            ops |-> << PtOp(p, "P"), [op |-> "select_identity", bit |-> 1, a |-> "P", out |-> "R"] >>],
+           [g |-> "select_identity/const-bit-0", expect |-> Ok(Id),
+            ops |-> << PtOp(p, "P"), [op |-> "select_identity", bit |-> 0, a |-> "P", out |-> "R"] >>] >>))
+  \o Flat(Map(<< Zero, One >>, LAMBDA b :
+        << [g |-> "select_point/const-b", expect |-> Ok(IF b = One THEN JubJubG ELSE Id),
+            ops |-> << Wt(b, "b"), PtOp(JubJubG, "P"), [op |-> "select_point", bit |-> "b", a |-> "P", b |-> IdC, out |-> "R"] >>],
+           [g |-> "select_point/const-a", expect |-> Ok(IF b = One THEN Id ELSE JubJubG),
+            ops |-> << Wt(b, "b"), PtOp(JubJubG, "P"), [op |-> "select_point", bit |-> "b", a |-> IdC, b |-> "P", out |-> "R"] >>],
+           [g |-> "select_identity/const-point", expect |-> Ok(Id),
+            ops |-> << Wt(b, "b"), [op |-> "select_identity", bit |-> "b", a |-> IdC, out |-> "R"] >>] >>))
+  \o << [g |-> "add_point/const-both", expect |-> Ok(Id),
+         ops |-> << [op |-> "add_point", a |-> IdC, b |-> IdC, out |-> "R"] >>],
+        [g |-> "neg_point/const", expect |-> Ok(Id),
+         ops |-> << [op |-> "neg_point", a |-> IdC, out |-> "R"] >>],
+        [g |-> "mul_point/const-point", expect |-> Ok(Id),
+         ops |-> << Wt(Rnd(26), "s0"), [op |-> "truncate", w |-> "s0", n |-> 250, out |-> "s"],
+                    [op |-> "mul_point", s |-> "s", p |-> IdC, out |-> "R"] >>],
+        [g |-> "mul_point/const-scalar-1", expect |-> Ok(JubJubG),
+         ops |-> << PtOp(JubJubG, "P"), [op |-> "mul_point", s |-> 1, p |-> "P", out |-> "R"] >>],
+        [g |-> "mul_point/const-scalar-0", expect |-> Ok(Id),
+         ops |-> << PtOp(JubJubG, "P"), [op |-> "mul_point", s |-> 0, p |-> "P", out |-> "R"] >>] >>
 
 MulScalars == IF Quick THEN << Zero, BigSub(RJ, BigOne), BSub(P2(252), One), P2(252) >>
               ELSE << Zero, One, BigSub(RJ, BigOne), RJ, BSub(P2(252), One), P2(252), BigLow(Rnd(31), 252), BigLow(Rnd(32), 252), M1 >>
@@ -532,9 +622,9 @@ AllCases ==
     [] Family = "fixed-digits" -> DigitCases
     [] Family = "range-closing" -> RangeClosingCases
     [] Family = "truncate" -> TruncCases
-    [] Family = "logic" -> LogicCases
-    [] Family = "arith" -> ArithCases
-    [] Family = "curve" -> CurveCases
+    [] Family = "logic" -> LogicCases \o HandleLogicCases
+    [] Family = "arith" -> ArithCases \o HandleArithCases
+    [] Family = "curve" -> CurveCases \o HandleCurveCases
     [] Family = "mul_point" -> MulPointCases
     [] Family = "subgroup" -> SubgroupCases
     [] Family = "fixed" -> FixedCases
